@@ -227,3 +227,32 @@ func (c *Ctx) finish(verifDir, tier string, seed int, t0 time.Time, extra map[st
 	}
 	return 0
 }
+
+// borrow runs rules of another property in a scratch context and imports the
+// obligations of the selected rules under a new rule id (shared clauses such
+// as C04-W1 = C05-W1 are decided once, by the same code).
+func (c *Ctx) borrow(run func(*Ctx), rename map[string]string) {
+	tmp := NewCtx(c.P, c.Property)
+	run(tmp)
+	for _, o := range tmp.Obls {
+		nr, ok := rename[o.Rule]
+		if !ok {
+			continue
+		}
+		o.Rule = nr
+		c.Obls = append(c.Obls, o)
+		c.RuleCount[nr]++
+		c.nontrivial[nr+"|"+o.Construct] = true
+	}
+	for _, f := range tmp.Findings {
+		nr, ok := rename[f.Rule]
+		if !ok {
+			continue
+		}
+		f.Rule = nr
+		if !c.seenFind[f.Key()] {
+			c.seenFind[f.Key()] = true
+			c.Findings = append(c.Findings, f)
+		}
+	}
+}
